@@ -1,52 +1,3 @@
-/* C17: section_t::block(raise) and ~section_t(): every stored future is visited exactly once, in order; a valid future is
- * waited for with get() (which re-throws the task's exception) when raise is set and with wait() otherwise; an
- * exception can leave block() only when raise is set.  ~section_t() calls block(false) exactly once.
- * Universal statement at a ghost position nv_g (DESIGN 4.3); the other positions hold arbitrary futures. */
-#include "pool.h"
-uint64_t nv_g;                      /* ghost index: an arbitrary position in the section */
-struct nv_future nv_fut_g;          /* the future stored there */
-struct nv_future nv_fut_other;      /* any other future (havocked at every access) */
-uint64_t nv_visits;                 /* iterator dereferences */
-uint64_t nv_g_gets, nv_g_waits;     /* get() / wait() calls on the future at nv_g */
-uint64_t nv_last_visit;
-static struct nv_future* nv_future_at(uint64_t i)
-{
-  __CPROVER_assert(i == nv_visits, "block: futures are visited in order, each once");
-  nv_visits = nv_visits + 1;
-  if (i == nv_g) return &nv_fut_g;
-  nv_fut_other.valid = nv_nondet__Bool(); nv_fut_other.id = nv_nondet_uint64_t();
-  return &nv_fut_other;
-}
-static _Bool nv_future_valid(const struct nv_future* f) { return f->valid; }
-/* shared_future::get(): waits, then re-throws the stored exception if any */
-static void nv_future_get(const struct nv_future* f)
-{
-  __CPROVER_assert(f->valid, "get(): only on a valid future (else undefined behaviour)");
-  if (f == &nv_fut_g) nv_g_gets = nv_g_gets + 1;
-  if (nv_nondet__Bool()) nv_thrown = 1;
-}
-static void nv_future_wait(const struct nv_future* f)
-{
-  __CPROVER_assert(f->valid, "wait(): only on a valid future (else undefined behaviour)");
-  if (f == &nv_fut_g) nv_g_waits = nv_g_waits + 1;
-}
-#define NV_CONTRACT_section_block \
-__CPROVER_requires(__CPROVER_is_fresh(self, sizeof(*self)) && nv_visits == 0 && nv_g_gets == 0 && nv_g_waits == 0 && self->size < (1ULL << 62)) \
-__CPROVER_assigns(nv_thrown, nv_visits, nv_g_gets, nv_g_waits, nv_fut_other) \
-__CPROVER_ensures(nv_thrown ==> raise) \
-__CPROVER_ensures(!nv_thrown ==> nv_visits == self->size) \
-__CPROVER_ensures((!nv_thrown && nv_g < self->size) ==> (nv_g_gets == ((nv_fut_g.valid && raise) ? 1 : 0) && nv_g_waits == ((nv_fut_g.valid && !raise) ? 1 : 0))) \
-__CPROVER_ensures(nv_g_gets + nv_g_waits <= 1)
-#define NV_LOOP_section_block_1 \
-__CPROVER_assigns(__begin1, nv_thrown, nv_visits, nv_g_gets, nv_g_waits, nv_fut_other) \
-__CPROVER_loop_invariant(__begin1 <= __end1 && __end1 == self->size && nv_visits == __begin1 && !nv_thrown) \
-__CPROVER_loop_invariant(nv_g_gets == ((nv_g < __begin1 && nv_fut_g.valid && raise) ? 1 : 0) && nv_g_waits == ((nv_g < __begin1 && nv_fut_g.valid && !raise) ? 1 : 0)) \
-__CPROVER_decreases(__end1 - __begin1)
-
-/* ~section_t() */
-uint64_t nv_block_calls; _Bool nv_block_arg;
-static void nv_block_stub(struct nv_section* s, _Bool raise) { nv_block_calls = nv_block_calls + 1; nv_block_arg = raise; }
-#define NV_CONTRACT_section_dtor \
-__CPROVER_requires(__CPROVER_is_fresh(self, sizeof(*self)) && nv_block_calls == 0) \
-__CPROVER_assigns(nv_block_calls, nv_block_arg) \
-__CPROVER_ensures(nv_block_calls == 1 && !nv_block_arg && !nv_thrown)
+/* C17: targets section_block / section_dtor: section_t::block(raise) and ~section_t() are PROVED against the contracts of
+ * section.h (the same text pool_t::map uses them through).  ~section_t() calls the real block through its contract. */
+#include "section.h"
